@@ -140,7 +140,14 @@ def poll_update(ts, h, numbers):
     from deepproto.proto.tracepoint.v1.tracepoint_pb2 import TracePointConfig
     return PollResponse(ts_nanos=ts, current_hash=str(h), response_type=ResponseType.UPDATE,
                         # several service tracepoints share a line (they are merged into one trigger per location)
-                        response=[TracePointConfig(ID=str(n), path="polled.py", line_number=10 + n % 3, args={}) for n in numbers])
+                        # (and carry arguments of every sort: the well-formed ones, values no reader expects, keys nobody reads -
+                        # a tracepoint is installed with what can be made of its arguments, and the response as a whole always is)
+                        response=[TracePointConfig(ID=str(n), path="polled.py", line_number=10 + n % 3, args=ODD_ARGS[n % len(ODD_ARGS)])
+                                  for n in numbers])
+
+
+ODD_ARGS = [{}, {"fire_count": "3"}, {"window_start": "", "window_end": "2030-01-01"}, {"fire_period": "soon", "fire_count": ""},
+            {}, {"window_start": "12", "window_end": "x"}, {"frame_type": "whole", "stack_type": "?"}, {"log_msg": "m {a}"}]
 
 
 def poll_no_change(ts):
